@@ -138,3 +138,31 @@ R.contract(
 R.contract("pull_certificate_verify", returns="CertificateVerify", requires=[_type_byte(15)], raises={BRE: None, ADE: None}, modifies=["buf.g_pos"],
            ensures=_KEEP + _WHOLE + ["0 <= result.algorithm < 65536"], check_frame=True, **_P)
 R.contract("pull_finished", returns="Finished", requires=[_type_byte(20)], raises={BRE: None}, modifies=["buf.g_pos"], ensures=_KEEP + _WHOLE, check_frame=True, **_P)
+
+# ------------------------------------------------------------------------------------------------ server ClientHello handler: key exchange
+# Context._server_handle_hello (228 lines) is not verified as a whole (its contract is assumed at the dispatcher).  BLOCK
+# contract on its key-exchange statements - `shared_key = None`, the loop over the client's key shares, the
+# `if shared_key is None: raise` that follows - extracted from the real function on every run.  CLAIM (C05): only alerts.
+# REFUTED on the unchanged tree (known finding): a ClientHello WITHOUT the key_share extension leaves peer_hello.key_share
+# None and `for key_share in None` is a TypeError - before any authentication; natively reproduced
+# (tools/repro/c05_tls_hello_without_key_share.py), repaired by tools/fixes/c05_tls_nonalert2.patch.
+# NOT in PROPS["C05"]: the block stays UNDECIDED as a whole - its elliptic-curve branch calls `GROUP_TO_CURVE[key_share[0]]()`,
+# a module-level table of external curve CLASSES, which the engine cannot evaluate ("non-symbolic value in value position").
+# Developer run:  python3-vt -m engine.pyvc.cli "tls.py::Context._server_handle_hello@key_exchange"  shows the refuted
+# obligation no-escape.TypeError@1 on the unchanged tree and no refuted obligation with the repair applied.
+R.module_names.update({"x25519", "x448", "ec"})
+_GEN = dict(trusted=True, note="third-party (cryptography) key generation: total")
+R.contract("x25519.X25519PrivateKey.generate", returns="X25519PrivateKey", allocates=True, **_GEN)
+R.contract("x448.X448PrivateKey.generate", returns="X448PrivateKey", allocates=True, **_GEN)
+R.contract("ec.generate_private_key", returns="EcPrivateKey", allocates=True, **_GEN)
+R.contract("X25519PrivateKey.public_key", returns="Any", **_GEN)
+R.contract("X448PrivateKey.public_key", returns="Any", **_GEN)
+R.contract(
+    "Context._server_handle_hello@key_exchange",
+    region={"anchor": "shared_key: Optional[bytes] = None", "span": 3},
+    params={"peer_hello": "ClientHello"},
+    use_invariant=False,
+    raises={"AlertIllegalParameter": None, "AlertHandshakeFailure": None},
+    modifies=["self._x25519_private_key", "self._x448_private_key", "self._ec_private_keys"],
+    loops={0: dict(invariant=["0 <= _i0"], modifies=["self._x25519_private_key", "self._x448_private_key", "self._ec_private_keys"])},
+)
